@@ -28,6 +28,7 @@ EXPLANATION = (
     "kernels are replaced by tagging stubs and the independent recogniser checks that every identifier position of "
     "every output file went through escape(convert(name)); (grammar) every output file of every model of the zoo "
     "parses with the independent recogniser (header order, brackets, braces, comments, literals)."
+    ' (docstring_defaults) default texts as the docstring parser reports them (Python source text) for a typed optional parameter of a function / constructor: the stub parses and the default is the Safe-DS literal with the same value.'
 )
 ASSUMPTIONS = [
     "7-bit ASCII only; identifiers up to the stated length; docstring alphabet {a,b,space,*,/,newline,>,.}",
